@@ -461,6 +461,38 @@ where
     )
 }
 
+/// two-step chain `(l * r) / r`: prints the intermediate product and the final quotient
+pub fn dmd<L, R, O>(a: &[&str]) -> String
+where
+    L: Quantity<UnitType: 'static> + Mul<R, Output = O>,
+    R: Quantity<UnitType: 'static>,
+    O: Quantity<UnitType: 'static> + Div<R, Output = L>,
+{
+    let l = L::new(dec_amt(a[1]), unit_at::<L::UnitType>(a[0].parse().unwrap()));
+    let r = R::new(dec_amt(a[3]), unit_at::<R::UnitType>(a[2].parse().unwrap()));
+    let p = match std::panic::catch_unwind(std::panic::AssertUnwindSafe(|| l * r)) {
+        Ok(p) => p,
+        Err(_) => return format!("{}|-", guard(|| qstr(l * r))),
+    };
+    format!("{}|{}", qstr(p), guard(|| qstr(p / r)))
+}
+
+/// two-step chain `(l / r) * r`
+pub fn ddm<L, R, O>(a: &[&str]) -> String
+where
+    L: Quantity<UnitType: 'static> + Div<R, Output = O>,
+    R: Quantity<UnitType: 'static>,
+    O: Quantity<UnitType: 'static> + Mul<R, Output = L>,
+{
+    let l = L::new(dec_amt(a[1]), unit_at::<L::UnitType>(a[0].parse().unwrap()));
+    let r = R::new(dec_amt(a[3]), unit_at::<R::UnitType>(a[2].parse().unwrap()));
+    let p = match std::panic::catch_unwind(std::panic::AssertUnwindSafe(|| l / r)) {
+        Ok(p) => p,
+        Err(_) => return format!("{}|-", guard(|| qstr(l / r))),
+    };
+    format!("{}|{}", qstr(p), guard(|| qstr(p * r)))
+}
+
 // ------------------------------------------------------------------ main loop
 
 fn handle(line: &str) -> String {
